@@ -192,6 +192,7 @@ class Unlock(Contract):
     result = BOOL_
     modifies_self = dict(last_comm_exception=OPAQUE("last_comm_exception"))
 
+    @only("C09", "C10", "C03", "C04", "C11")      # (an operator-typed any-PIN longer than 255 bytes is outside C18's subject)
     def pre_len(pin): return len(pin) <= 255
     requires = [pre_len]
 
@@ -207,6 +208,7 @@ class Unlock(Contract):
     def at_most_one_unlock(g, old):
         return (sel(g.cnt, CMD_UNLOCK) <= sel(old.g.cnt, CMD_UNLOCK) + 1
                 and sel(g.cnt, CMD_CHANGE_PIN) == sel(old.g.cnt, CMD_CHANGE_PIN)
+                and sel(g.cnt, CMD_SEED) == sel(old.g.cnt, CMD_SEED) and sel(g.cnt, CMD_WIPE) == sel(old.g.cnt, CMD_WIPE)
                 and g.conn == old.g.conn and g.disc == old.g.disc and monotone(g, old))
     raises = PROPAGATE(at_most_one_unlock)
 
@@ -218,6 +220,7 @@ class NewPin(Contract):
     result = BOOL_
     modifies_self = dict(last_comm_exception=OPAQUE("last_comm_exception"))
 
+    @only("C09", "C10", "C03", "C04", "C11")
     def pre_len(pin): return len(pin) <= 254
     requires = [pre_len]
 
